@@ -34,7 +34,7 @@ ASSUMPTIONS = [
     "battery noise draws are patched and continue where the interrupted run stopped",
 ]
 
-RANK = {"Unplug": 0, "Plugin": 1, "Recompute": 2}
+RANK = {"Unplug": 0, "Plugin": 1, "Recompute": 2, "": 3}
 
 
 def outcome(sim):
